@@ -100,6 +100,7 @@ BrokerStep(c) ==
      /\ LET e == Head(cl[c].resend) IN ResendOne(c, StoredPkt(CHOOSE o \in SeqSet(S(c).out) : o.id = e.id, TRUE))
   \/ Restore(c, "")
   \/ GotPkt(c, "SUBSCRIBE") /\ SubCall(c, cl[c].pkt.subs)
+  \/ SubApply(c) \/ UnsubApply(c)
   \/ SubAck(c)
   \/ cl[c].pc = "sub.acked" /\ \E i \in 1..Len(cl[c].pkt.subs) : \E m \in retained : SubReplay(c, i, m)
   \/ SubRet(c, "")
